@@ -30,17 +30,6 @@ fn c07_bucket_offset_roundtrip() {
     }
 }
 
-/// Two different (bucket, offset) pairs never pack to the same value (no aliasing of merged strings).
-#[kani::proof]
-#[kani::stub(std::fmt::format, c07_stub_format)]
-fn c07_bucket_offset_injective() {
-    let (o1, o2): (u32, u32) = (kani::any(), kani::any());
-    let (b1, b2): (usize, usize) = (kani::any(), kani::any());
-    kani::assume(b1 < (1usize << MERGE_STRING_BUCKET_BITS) && b2 < (1usize << MERGE_STRING_BUCKET_BITS));
-    let (Ok(x), Ok(y)) = (BucketOffset::new(o1, b1), BucketOffset::new(o2, b2)) else { return };
-    kani::cover!(b1 != b2 && o1 == o2, "same offset in two buckets");
-    kani::cover!(b1 == b2 && o1 != o2, "two offsets in one bucket");
-    if x.0 == y.0 {
-        assert!(o1 == o2 && b1 == b2, "C07 distinct strings get distinct packed offsets");
-    }
-}
+// Injectivity (distinct strings get distinct packed offsets) follows from the round trip above: bucket() and
+// offset_in_bucket() are functions of the packed value alone, so two pairs packing to the same value would both
+// be recovered from it.  (A direct two-call harness did not finish in 300 s and was dropped.)
